@@ -107,6 +107,8 @@ async fn dht_script(wi: u64, mut rng: Rng) -> anyhow::Result<(Vec<Ev>, Vec<Optio
     let mut known_ids: Vec<(u64, String, usize)> = vec![]; // (model id, uuid, peer index)
     let mut next_id = 1u64; let mut tag = 100u64;
     let mut last_send = Instant::now();
+    let mut started_at: std::collections::HashMap<u64, Instant> = std::collections::HashMap::new();   // request idx -> when it was sent
+    let mut leftover: Vec<Instant> = vec![];   // start times of dropped requests whose entries wait for the sweep
     let nsteps = rng.range(6, 16);
     for _ in 0..nsteps {
         // requests that timed out on their own since the last step
@@ -120,7 +122,13 @@ async fn dht_script(wi: u64, mut rng: Rng) -> anyhow::Result<(Vec<Ev>, Vec<Optio
         let live: Vec<usize> = reqs.iter().enumerate().filter(|(_, r)| r.alive).map(|(i, _)| i).collect();
         if choice <= 2 || known_ids.is_empty() {
             if live.len() >= 4 { continue; }
-            // Send
+            // Send.  The sweep removes entries older than 2 x timeout: never send while a left-over entry is near that
+            // age (the harness clock and the node's clock differ by scheduling latencies).
+            loop {
+                let near = leftover.iter().map(|t| t.elapsed().as_millis() as u64).filter(|a| *a + 300 > 2 * T_MS && *a < 2 * T_MS + 300).max();
+                match near { Some(a) => tokio::time::sleep(Duration::from_millis(2 * T_MS + 320 - a)).await, None => break }
+            }
+            leftover.retain(|t| (t.elapsed().as_millis() as u64) < 2 * T_MS);
             let pi = rng.below(c.peers.len() as u64) as usize;
             let before = c.seen.lock().unwrap().len();
             let mgr = c.m.manager.clone(); let pid = c.peers[pi].0.clone();
@@ -133,6 +141,7 @@ async fn dht_script(wi: u64, mut rng: Rng) -> anyhow::Result<(Vec<Ev>, Vec<Optio
             let idx = next_id; next_id += 1;
             reqs.push(Pending { idx, uuid: uuid.clone(), deadline: Instant::now() + Duration::from_millis(T_MS), task, alive: true });
             known_ids.push((idx, uuid, pi));
+            started_at.insert(idx, last_send);
             evs.push(Ev::Send(idx, pi as u64 + 1, now, T_MS)); obs.push(None);
             // (on a badly overloaded machine the request may already have timed out before we look)
             sizes.push(dsize(&c, &reqs));
@@ -161,6 +170,13 @@ async fn dht_script(wi: u64, mut rng: Rng) -> anyhow::Result<(Vec<Ev>, Vec<Optio
                 payload: DhtNetworkOperation::Ping, result: Some(pong(tag)), timestamp: now_secs(), ttl: 3, hop_count: 1 };
             c.m.transport.verif_inject_frame(&from_id, SimNet::frame(&from_id, &resp)).await;
             quiesce(&c).await;
+            // if this delivery is one the waiting request should take (right id, right peer, first reply), give the
+            // request's task time to be scheduled; the verdict itself is still decided by the model inside Coq
+            let expect_done = reqs.iter().position(|r| r.alive && r.uuid == uuid && known_ids.iter().any(|k| k.1 == uuid && c.peers[k.2].0 == from_id));
+            if let Some(i) = expect_done {
+                let t_wait = Instant::now();
+                while !reqs[i].task.is_finished() && t_wait.elapsed() < Duration::from_millis(1500) { tokio::time::sleep(Duration::from_millis(2)).await; }
+            } else { tokio::time::sleep(Duration::from_millis(12)).await; }
             evs.push(Ev::Deliver(mid, from_idx, tag));
             // which task finished?  A task that finished WITH a reply is the completion of this delivery;
             // a task that ran into its own timeout during the window is an ordinary Finish.
@@ -198,6 +214,7 @@ async fn dht_script(wi: u64, mut rng: Rng) -> anyhow::Result<(Vec<Ev>, Vec<Optio
             let i = live[rng.below(live.len() as u64) as usize];
             reqs[i].task.abort(); reqs[i].alive = false;
             let _ = (&mut reqs[i].task).await;
+            if let Some(t) = started_at.get(&reqs[i].idx) { leftover.push(*t); }
             evs.push(Ev::Cancel(reqs[i].idx)); obs.push(None);
             sizes.push(dsize(&c, &reqs));
         } else if choice == 11 {
@@ -319,10 +336,16 @@ async fn rr_script(wi: u64, mut rng: Rng, flood: bool, cancel_flood: bool) -> an
             };
             if reqs.iter().any(|r| r.alive && r.uuid == uuid && r.deadline < Instant::now() + Duration::from_millis(350)) { continue; }
             tag += 1;
+            let uuid_for_wait = uuid.clone();
             let env = Envelope { message_id: uuid, is_response: true, payload: vec![(tag % 250) as u8, (tag / 250) as u8] };
             let wire = Wire { protocol: "/rr/vp".into(), data: postcard::to_stdvec(&env)?, from: "whoever".into(), timestamp: now_secs() };
             c.m.transport.verif_inject_frame(&from_id, postcard::to_stdvec(&wire)?).await;
             quiesce(&c).await;
+            let expect_done = reqs.iter().position(|r| r.alive && r.uuid == uuid_for_wait && known.iter().any(|k| k.1 == uuid_for_wait && c.peers[k.2].0 == from_id));
+            if let Some(i) = expect_done {
+                let t_wait = Instant::now();
+                while !reqs[i].task.is_finished() && t_wait.elapsed() < Duration::from_millis(1500) { tokio::time::sleep(Duration::from_millis(2)).await; }
+            } else { tokio::time::sleep(Duration::from_millis(12)).await; }
             evs.push(REv::Deliver(mid, from_idx, tag));
             let mut completed = ROut::None;
             let mut timed_out: Vec<u64> = vec![];
